@@ -88,7 +88,7 @@ func runC04(c *Ctx) {
 			}
 			var extra []string
 			for _, g := range guardsOf(i) {
-				if !allowed.MatchString(g.Text) {
+				if !allowed.MatchString(g.Text) && !(swapEquality(g.Text) != "" && allowed.MatchString(swapEquality(g.Text))) {
 					extra = append(extra, g.Text)
 				}
 			}
